@@ -73,6 +73,23 @@ pub fn skeleton(text: &str) -> String {
     out.chars().take(160).collect()
 }
 
+/// Error messages that embed whole `Type { .. }` dumps are reduced to the function and the decoded
+/// operand types, e.g. `Function Add not implemented for (Integer, Null)`.
+pub fn error_skeleton(msg: &str) -> String {
+    if let Some(p) = msg.find("is not implemented for types") {
+        let func = msg[..p].rsplit("Function ").next().unwrap_or("").trim().to_string();
+        let decoded: Vec<&str> = msg[p..]
+            .match_indices("Type { decoded: ")
+            .map(|(i, m)| {
+                let rest = &msg[p + i + m.len()..];
+                rest.split(|c: char| !c.is_alphanumeric()).next().unwrap_or("")
+            })
+            .collect();
+        return format!("Function {} not implemented for ({})", func, decoded.join(", "));
+    }
+    skeleton(msg)
+}
+
 // ---- layouts ----------------------------------------------------------------------------------------
 
 #[derive(Clone, Debug)]
@@ -87,6 +104,9 @@ pub struct Layout {
     pub threads: usize,
     pub maxpart: u64,
     pub disk: bool,
+    /// build each batch row by row with TableBuffer::push_row_and_timestamp (sparse encodings for
+    /// nullable numbers, an extra `timestamp` column) instead of whole typed columns
+    pub rowpush: bool,
 }
 
 impl Layout {
@@ -100,6 +120,7 @@ impl Layout {
             threads: 1,
             maxpart: 8 * 1024 * 1024,
             disk: false,
+            rowpush: false,
         }
     }
     pub fn sx(&self) -> Sx {
@@ -114,6 +135,7 @@ impl Layout {
                 Sx::int(self.threads),
                 Sx::int(self.maxpart),
                 Sx::boolean(self.disk),
+                Sx::boolean(self.rowpush),
             ],
         )
     }
@@ -129,6 +151,7 @@ impl Layout {
             threads: it[6].as_usize(),
             maxpart: it[7].as_u64(),
             disk: it[8].atom() == "true",
+            rowpush: it.get(9).map_or(false, |x| x.atom() == "true"),
         }
     }
     /// short label for the class histogram
@@ -182,6 +205,7 @@ pub fn gen_layout(r: &mut Rng, n: usize, max_batches: usize, compaction: bool) -
     l.threads = *r.pick(&[1usize, 2, 8]);
     l.maxpart = *r.pick(&[1u64, 64, 4096, 8 * 1024 * 1024]);
     l.disk = r.chance(1, 5);
+    l.rowpush = r.chance(1, 4);
     l
 }
 
@@ -224,13 +248,7 @@ fn column_data(kind: Kind, cells: &[V], omit_when_null: bool) -> Option<ColumnDa
             if n_null == 0 {
                 ColumnData::I64(cells.iter().map(|v| if let V::Int(i) = v { *i } else { unreachable!() }).collect())
             } else {
-                ColumnData::SparseI64(
-                    cells
-                        .iter()
-                        .enumerate()
-                        .filter_map(|(i, v)| if let V::Int(x) = v { Some((i as u64, *x)) } else { None })
-                        .collect(),
-                )
+                ColumnData::Mixed(cells.iter().map(|v| if let V::Int(x) = v { AnyVal::Int(*x) } else { AnyVal::Null }).collect())
             }
         }
         Kind::Float => {
@@ -239,12 +257,8 @@ fn column_data(kind: Kind, cells: &[V], omit_when_null: bool) -> Option<ColumnDa
                     cells.iter().map(|v| if let V::Float(b) = v { f64::from_bits(*b) } else { unreachable!() }).collect(),
                 )
             } else {
-                ColumnData::Sparse(
-                    cells
-                        .iter()
-                        .enumerate()
-                        .filter_map(|(i, v)| if let V::Float(b) = v { Some((i as u64, f64::from_bits(*b))) } else { None })
-                        .collect(),
+                ColumnData::Mixed(
+                    cells.iter().map(|v| if let V::Float(b) = v { AnyVal::Float(f64::from_bits(*b)) } else { AnyVal::Null }).collect(),
                 )
             }
         }
@@ -313,15 +327,49 @@ pub fn build(table: &Table, layout: &Layout) -> Result<Db, BuildError> {
     let mut start = 0usize;
     for (bi, &len) in layout.batches.iter().enumerate() {
         let mut columns = HashMap::new();
-        for c in &table.cols {
-            if let Some(data) = column_data(c.kind, &c.cells[start..start + len], c.omit_when_null) {
-                columns.insert(c.name.clone(), ColumnBuffer { data });
+        let mut late: Vec<(String, ColumnBuffer)> = vec![];
+        if layout.rowpush {
+            // nullable strings cannot be pushed row-wise (no sparse strings): inserted afterwards
+            for c in &table.cols {
+                let cells = &c.cells[start..start + len];
+                if c.kind == Kind::Str && cells.iter().any(|v| v.is_null()) && !cells.iter().all(|v| v.is_null()) {
+                    late.push((c.name.clone(), ColumnBuffer { data: column_data(c.kind, cells, true).unwrap() }));
+                }
+            }
+        } else {
+            for c in &table.cols {
+                if let Some(data) = column_data(c.kind, &c.cells[start..start + len], c.omit_when_null) {
+                    columns.insert(c.name.clone(), ColumnBuffer { data });
+                }
             }
         }
+        let row_start = start;
         start += len;
         let db = handle.db.clone();
         let res = std::panic::catch_unwind(std::panic::AssertUnwindSafe(|| {
-            let tb = TableBuffer::new(columns);
+            let tb = if layout.rowpush {
+                let mut tb = TableBuffer::default();
+                for i in row_start..row_start + len {
+                    let row: Vec<(String, AnyVal)> = table
+                        .cols
+                        .iter()
+                        .filter(|c| !late.iter().any(|(n, _)| *n == c.name))
+                        .filter_map(|c| match &c.cells[i] {
+                            V::Null => None,
+                            V::Int(x) => Some((c.name.clone(), AnyVal::Int(*x))),
+                            V::Float(b) => Some((c.name.clone(), AnyVal::Float(f64::from_bits(*b)))),
+                            V::Str(s) => Some((c.name.clone(), AnyVal::Str(String::from_utf8(s.clone()).unwrap()))),
+                        })
+                        .collect();
+                    tb.push_row_and_timestamp(row);
+                }
+                for (n, c) in late.drain(..) {
+                    tb.insert(n, c);
+                }
+                tb
+            } else {
+                TableBuffer::new(columns)
+            };
             let eb = EventBuffer { tables: HashMap::from([(TABLE.to_string(), tb)]) };
             runtime().block_on(async { db.ingest_efficient(eb).await });
         }));
@@ -394,7 +442,7 @@ impl QOut {
     pub fn signature(&self) -> String {
         match self {
             QOut::Rows(_) => "rows".into(),
-            QOut::Err(kind, msg) => format!("err:{}:{}", kind, skeleton(msg)),
+            QOut::Err(kind, msg) => format!("err:{}:{}", kind, error_skeleton(msg)),
             QOut::Panic(sites) => format!("panic:{}", skeleton(&sites.first().cloned().unwrap_or_default())),
             QOut::Hang => "hang".into(),
         }
